@@ -147,7 +147,7 @@ def apply(h, item):
         if k == "g":
             return ["g", h.gcode_raw(item[1])]
         if k == "at":
-            return ["at"] + list(h.at(item[1], item[2], bool(item[3]) if len(item) > 3 else False))
+            return ["at"] + list(h.at(item[1], item[2], item[3] if len(item) > 3 else False))
         if k == "hook":
             return ["hook", h.script(item[1], item[2])]
         if k == "event":
